@@ -458,3 +458,15 @@ func vUpperByte(c byte) byte {
 	}
 	return c
 }
+
+// vWriter: an io.Writer sink that records what it is given.
+type vWriter struct {
+	buf   []byte
+	calls int
+}
+
+func (w *vWriter) Write(p []byte) (int, error) {
+	w.buf = append(w.buf, p...)
+	w.calls++
+	return len(p), nil
+}
